@@ -7,6 +7,7 @@
 (*  mode "corrupt": every single-point corruption (delete / insert /        *)
 (*                  replace by one representative byte) and every proper    *)
 (*                  prefix (truncation) of each base message.               *)
+(*  mode "list":    the given strings as they are (long / extreme inputs).   *)
 (* Each generated string is printed with its W / M(kind) / U verdict and,   *)
 (* for W, its decomposition.                                                *)
 EXTENDS ScpiLex, TLC, Json
